@@ -117,7 +117,8 @@ func (srv *Srv) attach(req *SrvReq) {
 
 	if tc.Afid != NOFID {
 		req.Afid = conn.FidGet(tc.Afid)
-		if req.Afid == nil {
+		if req.Afid == nil || req.Afid == req.Fid {
+			/* the fid being attached is not a valid afid */
 			req.RespondError(Eunknownfid)
 			return
 		}
